@@ -65,10 +65,10 @@ res "seed valid: $VALID"
 DETECT=""
 if [ $VALID = yes ]; then
   for C in $CHECKS; do
-    (cd /verif && VERIF_REPO=$WT ./check $C quick > "$OUT/check_$C.quick.log" 2>&1); RC=$?
+    (cd /verif && VERIF_REPO=$WT VERIF_EVIDENCE_DIR=$OUT/evidence VERIF_REPLAYS_DIR=$TMPDIR/replays ./check $C quick > "$OUT/check_$C.quick.log" 2>&1); RC=$?
     res "check $C quick against the patched tree: rc=$RC $(grep -c '^VIOLATION' "$OUT/check_$C.quick.log") violation line(s)"
     if [ $RC = 1 ]; then DETECT="$DETECT $C:quick"; continue; fi
-    (cd /verif && VERIF_REPO=$WT ./check $C thorough > "$OUT/check_$C.thorough.log" 2>&1); RC=$?
+    (cd /verif && VERIF_REPO=$WT VERIF_EVIDENCE_DIR=$OUT/evidence VERIF_REPLAYS_DIR=$TMPDIR/replays ./check $C thorough > "$OUT/check_$C.thorough.log" 2>&1); RC=$?
     res "check $C thorough against the patched tree: rc=$RC $(grep -c '^VIOLATION' "$OUT/check_$C.thorough.log") violation line(s)"
     if [ $RC = 1 ]; then DETECT="$DETECT $C:thorough"; fi
   done
@@ -86,4 +86,3 @@ EOF
 cd /
 git -C /repo worktree remove --force "$WT"
 rm -rf "$TMPDIR"
-rm -rf /verif/replays
